@@ -51,3 +51,22 @@ pub fn estimate_builder_fee_for_collateral_withdrawal(
 pub fn record_builder_fee(order: &mut Order, amount: u64) -> Result<()> {
     order.record_builder_fee(amount)
 }
+
+/// Prepare a (zeroed) order for `settle_builder_fee`: owning store, attached builder, final
+/// output token with its escrow account, and the recorded builder fee amount.
+pub fn order_prepare_for_settlement(
+    order: &mut Order,
+    store: &Pubkey,
+    builder: &Pubkey,
+    final_output_token: &Pubkey,
+    escrow: &Pubkey,
+    recorded_amount: u64,
+) {
+    order.header.store = *store;
+    order.builder = *builder;
+    order.builder_fee_amount = recorded_amount;
+    // `TokenAndAccount` is the zero-copy pair { token, account } (private fields).
+    let raw = bytemuck::bytes_of_mut(&mut order.tokens.final_output_token);
+    raw[..32].copy_from_slice(final_output_token.as_ref());
+    raw[32..64].copy_from_slice(escrow.as_ref());
+}
